@@ -114,6 +114,8 @@ func (l *listener) listenLoop() {
 				conn := newStreamWrapper(stream, stream.LocalAddr(), stream.RemoteAddr(), wg)
 				select {
 				case <-l.closeCh:
+					// nobody will ever receive this connection: release its reference on the session
+					_ = conn.Close()
 					return
 				case l.backlog <- conn:
 				}
